@@ -988,3 +988,320 @@ Proof.
       intros d Hin. cbn in Hin. rewrite app_nil_r in Hin. exact (I1 d Hin). }
   intros d Hin. apply (G d). cbn. rewrite app_nil_r. exact Hin.
 Qed.
+
+(* ------------------------------------------------------------------ trace form: events follow their descriptors *)
+
+(* ---- the interruptions descriptor has been emitted *)
+Definition int_inv (tr : list doc) (s : bstate) : Prop :=
+  forall d, b_int s = Some (Some d) -> de_name d = interruptions_name /\ In (DDescr d) (tr ++ b_out s).
+Ltac iinv_mod :=
+  first
+    [ inv_untouched
+    | let H := fresh in
+      intros H d0 Hd; cbn in *; destruct (H d0 Hd) as [? Hin]; split; [assumption|];
+      rewrite app_assoc; apply in_or_app; left; exact Hin
+    | let H := fresh in intros H d0 Hd; cbn in Hd; discriminate Hd ].
+Lemma iinv_open_run tr : rel (inv_pre (int_inv tr)) open_run.
+Proof.
+  unfold open_run.
+  repeat (apply rel_bind; [rel_go3 iinv_mod | intro]).
+  match goal with |- rel _ (if ?b then _ else _) => destruct b; [|apply rel_ret] end.
+  apply rel_bind; [rel_go3 iinv_mod | intro iu].
+  apply (rel_bind_val _ _ _ (fun d => de_name d = interruptions_name)).
+  - intros ? ? ? H. apply compose_descriptor_name in H. exact H.
+  - unfold compose_descriptor. rel_go3 iinv_mod.
+  - intros d Hd. intros s I. rewrite bind_modify_eq. unfold emit, modify. cbn.
+    intros d0 H0. cbn in H0. inversion H0; subst d0. split; [exact Hd|].
+    apply in_or_app. right. apply in_or_app. right. left. reflexivity.
+Qed.
+Lemma iinv_ensure_all tr E l c : rel (inv_pre (int_inv tr)) (ensure_cached_all E l c).
+Proof. induction l; cbn -[bind ret]; rel_go3 iinv_mod. Qed.
+Lemma iinv_pack_loop tr nm d l acc : rel (inv_pre (int_inv tr)) (pack_loop nm d l acc).
+Proof. revert acc. induction l; intro acc; cbn -[bind ret]; rel_go3 iinv_mod. Qed.
+Lemma iinv_collect_all tr E l i : rel (inv_pre (int_inv tr)) (collect_all_assets E l i).
+Proof. induction l; cbn -[bind ret]; rel_go3 iinv_mod. Qed.
+#[export] Hint Resolve iinv_ensure_all iinv_pack_loop iinv_collect_all : rel_db.
+Lemma iinv_exec tr E o : rel (inv_pre (int_inv tr)) (exec E o).
+Proof. destruct o; cbn [exec]; try apply iinv_open_run; rel_go3 iinv_mod. Qed.
+
+(* ---- which ops emit events *)
+Definition event_op (o : op) : bool :=
+  match o with OSave | OMonEvent _ _ | ORecordInterruption _ => true | _ => false end.
+
+Lemma compose_stop_not_event st r s s1 d : compose_stop st r s = (s1, Ok d) -> is_event d = false.
+Proof. unfold compose_stop, fresh_uid. intros H. minv. reflexivity. Qed.
+
+Ltac noev_mod :=
+  cbn;
+  first [ exists []; rewrite app_nil_r; split; reflexivity
+        | eexists [_]; split; [reflexivity|]; unfold no_event; cbn;
+          first [ reflexivity
+                | match goal with H : is_event _ = false |- _ => rewrite H; reflexivity end ] ].
+
+Ltac rel_go4 tac :=
+  lazymatch goal with
+  | |- rel _ (bind (compose_stop _ _) _) =>
+      apply (rel_bind_val _ _ _ (fun ev => is_event ev = false));
+      [ intros ? ? ?; apply compose_stop_not_event | rel_go4 tac | intros ? ?; rel_go4 tac ]
+  | |- rel _ (bind _ _) => apply rel_bind; [ rel_go4 tac | intro; rel_go4 tac ]
+  | |- rel _ (ret _) => apply rel_ret
+  | |- rel _ (fail _) => apply rel_fail
+  | |- rel _ get => apply rel_get
+  | |- rel _ (guard _ _) => apply rel_guard
+  | |- rel _ (of_opt _ _) => apply rel_of_opt
+  | |- rel _ (of_res _) => apply rel_of_res
+  | |- rel _ (modify _) => apply rel_modify; intro; tac
+  | |- rel _ (iterM _ _) => apply rel_iterM; intro; rel_go4 tac
+  | |- rel _ (swallow _) => apply rel_swallow; rel_go4 tac
+  | |- rel _ (gather2 _ _) => apply rel_gather2; rel_go4 tac
+  | |- rel _ (if ?b then _ else _) => destruct b; rel_go4 tac
+  | |- rel _ (match ?x with _ => _ end) => destruct x; rel_go4 tac
+  | |- rel _ (let _ := _ in _) => cbv zeta; rel_go4 tac
+  | |- rel _ ?m =>
+      first [ solve [auto with rel_db]
+            | let h := head_of m in unfold h; rel_go4 tac ]
+  end.
+
+Lemma noev_ensure_all E l c : rel out_ext_noev (ensure_cached_all E l c).
+Proof. induction l; cbn -[bind ret]; rel_go4 noev_mod. Qed.
+Lemma noev_pack_loop nm d l acc : rel out_ext_noev (pack_loop nm d l acc).
+Proof. revert acc. induction l; intro acc; cbn -[bind ret]; rel_go4 noev_mod. Qed.
+Lemma noev_collect_all E l i : rel out_ext_noev (collect_all_assets E l i).
+Proof. induction l; cbn -[bind ret]; rel_go4 noev_mod. Qed.
+#[export] Hint Resolve noev_ensure_all noev_pack_loop noev_collect_all : rel_db.
+
+Lemma noev_exec E o : event_op o = false -> rel out_ext_noev (exec E o).
+Proof. intros H. destruct o; try discriminate H; cbn [exec]; rel_go4 noev_mod. Qed.
+
+(* ---- save: an event can only be the last document, and only when the op succeeds *)
+Definition tail_event {A} (m : M A) : Prop :=
+  forall s s' r, m s = (s', r) ->
+  (exists l, b_out s' = b_out s ++ l /\ no_event l) \/
+  (exists a pre ev, r = Ok a /\ b_out s' = b_out s ++ pre ++ [ev] /\ no_event pre /\ is_event ev = true).
+
+Lemma te_noev {A} (m : M A) : rel out_ext_noev m -> tail_event m.
+Proof. intros R s s' r H. left. specialize (R s). rewrite H in R. exact R. Qed.
+
+Lemma te_bind {A B} (m : M A) (k : A -> M B) :
+  rel out_ext_noev m -> (forall a, tail_event (k a)) -> tail_event (bind m k).
+Proof.
+  intros R K s s' r H. unfold bind in H. specialize (R s). destruct (m s) as [s1 [a|e]]; cbn in R.
+  - destruct R as (l1 & O1 & N1). destruct (K a s1 s' r H) as [(l2 & O2 & N2)|(b & pre & ev & -> & O2 & N2 & Ev)].
+    + left. exists (l1 ++ l2). rewrite O2, O1, app_assoc. split; [reflexivity|].
+      unfold no_event in *. rewrite forallb_app, N1, N2. reflexivity.
+    + right. exists b, (l1 ++ pre), ev. split; [reflexivity|]. rewrite O2, O1, <- !app_assoc. split; [reflexivity|].
+      split; [|exact Ev]. unfold no_event in *. rewrite forallb_app, N1, N2. reflexivity.
+  - inversion H; subst. left. exact R.
+Qed.
+
+Lemma te_compose_emit d data f : tail_event (bind (compose_event d data f) (fun ev => emit ev)).
+Proof.
+  intros s s' r H. unfold bind in H. destruct (compose_event d data f s) as [s1 [ev|e]] eqn:Hc.
+  - apply compose_event_ok in Hc. destruct Hc as (seq & _ & -> & _ & _ & _ & O & _).
+    unfold emit, modify in H. inversion H; subst. right. eexists tt, [], _. cbn. rewrite O.
+    split; [reflexivity|]. split; [reflexivity|]. split; reflexivity.
+  - assert (R : rel out_only (compose_event d data f)) by (unfold compose_event; rel_go ltac:(reflexivity)).
+    specialize (R s). rewrite Hc in R. cbn in R. inversion H; subst. left. exists []. rewrite app_nil_r. split; [exact R | reflexivity].
+Qed.
+
+Ltac te_go :=
+  lazymatch goal with
+  | |- tail_event (bind (compose_event _ _ _) _) => apply te_compose_emit
+  | |- tail_event (bind _ _) => apply te_bind; [ rel_go4 noev_mod | intro; te_go ]
+  | |- tail_event (match ?x with _ => _ end) => destruct x; te_go
+  | |- tail_event (if ?b then _ else _) => destruct b; te_go
+  | |- tail_event _ => apply te_noev; rel_go4 noev_mod
+  end.
+
+Lemma te_save E : tail_event (save E).
+Proof. unfold save. te_go. Qed.
+
+(* ---- list facts *)
+Lemma no_event_no_split l pre u de seq data fl post :
+  no_event l -> l = pre ++ DEvent u de seq data fl :: post -> False.
+Proof.
+  intros N E. subst l. unfold no_event in N. rewrite forallb_app in N. apply andb_true_iff in N.
+  destruct N as [_ N]. cbn in N. discriminate N.
+Qed.
+Lemma tail_event_split pre0 ev pre x post :
+  no_event pre0 -> is_event x = true -> pre0 ++ [ev] = pre ++ x :: post -> pre = pre0 /\ x = ev /\ post = [].
+Proof.
+  revert pre. induction pre0 as [|y pre0 IH]; intros pre N Hx E.
+  - destruct pre as [|z pre]; cbn in E.
+    + inversion E; subst. auto.
+    + inversion E as [[E1 E2]]. destruct pre; discriminate E2.
+  - unfold no_event in N. cbn in N. apply andb_true_iff in N. destruct N as [Ny N].
+    destruct pre as [|z pre]; cbn in E.
+    + inversion E; subst. rewrite Hx in Ny. discriminate Ny.
+    + inversion E; subst. destruct (IH pre N Hx H1) as (-> & -> & ->). auto.
+Qed.
+Lemma latest_app_nodescr tr l nm : forallb not_descr l = true -> latest_descr (tr ++ l) nm = latest_descr tr nm.
+Proof.
+  intros H. rewrite latest_app. replace (latest_descr l nm) with (@None descr); [reflexivity|].
+  induction l as [|x l IH]; [reflexivity|]. cbn in *. apply andb_true_iff in H. destruct H as [Hx H].
+  rewrite <- (IH H). destruct x; try discriminate; reflexivity.
+Qed.
+
+Definition ev_claim (pre : list doc) (de : uid) : Prop :=
+  exists d, In (DDescr d) pre /\ de_uid d = de /\
+            (de_name d = interruptions_name \/ latest_descr pre (de_name d) = Some d).
+
+Lemma record_interruption_docs c s s' r :
+  record_interruption c s = (s', r) ->
+  b_out s' = b_out s \/
+  exists u seq data fl d, b_int s = Some (Some d) /\ b_out s' = b_out s ++ [DEvent u (de_uid d) seq data fl].
+Proof.
+  unfold record_interruption. rewrite bind_get_eq, bind_of_opt_eq.
+  destruct (b_int s) as [[d|]|]; try (intros H; inversion H; subst; left; reflexivity).
+  intros H. unfold bind at 1 in H.
+  destruct (compose_event d [(interruption_key, c)] [] s) as [s1 [ev|e]] eqn:Hc.
+  - apply compose_event_ok in Hc. destruct Hc as (seq & _ & -> & _ & _ & _ & O & _).
+    rewrite bind_modify_eq in H. unfold emit, modify in H. inversion H; subst. cbn. rewrite O.
+    right. repeat eexists.
+  - assert (R : rel out_only (compose_event d [(interruption_key, c)] [])) by (unfold compose_event; rel_go ltac:(reflexivity)).
+    specialize (R s). rewrite Hc in R. cbn in R. inversion H; subst. left. exact R.
+Qed.
+
+Lemma latest_inv_descr_inv tr s : latest_inv tr s -> descr_inv tr s.
+Proof. intros [I _] nm d H. destruct (I nm d H) as (_ & A & B & _). auto. Qed.
+
+Lemma step_events E s tr o s' docs r :
+  latest_inv tr (clear_buffers s) -> int_inv tr (clear_buffers s) ->
+  uses_name0 o = false -> stale_fire tr s o = false ->
+  step E s o = (s', docs, r) ->
+  forall pre u de seq data fl post, docs = pre ++ DEvent u de seq data fl :: post -> ev_claim (tr ++ pre) de.
+Proof.
+  intros L I Hu Hst Hs pre u de seq data fl post Hd.
+  destruct (event_op o) eqn:Eo.
+  2:{ (* no event at all *)
+      apply step_inv in Hs. destruct Hs as (r0 & He & -> & _).
+      pose proof (noev_exec E o Eo (clear_buffers s)) as N. rewrite He in N. cbn in N.
+      destruct N as (l & O & N). rewrite O in Hd. exfalso. eapply no_event_no_split; eauto. }
+  destruct o; try discriminate Eo.
+  - (* save *)
+    pose proof Hs as Hs0. apply step_inv in Hs. destruct Hs as (r0 & He & -> & Hr).
+    cbn [exec] in He. destruct (te_save E _ _ _ He) as [(l & O & N)|([] & pre0 & ev & -> & O & N & Ev)]; cbn in O.
+    { rewrite O in Hd. exfalso. eapply no_event_no_split; eauto. }
+    cbn in Hr. subst r.
+    destruct (b_objs_read s) as [|o0 objs0] eqn:Hobjs.
+    { exfalso. destruct (b_bundling s) eqn:Hb.
+      - rewrite (save_empty E s Hb Hobjs) in Hs0.
+        assert (Z0 : b_out s' = []) by (inversion Hs0; congruence). rewrite Z0 in O. destruct pre0; discriminate O.
+      - rewrite (save_without_create E s Hb) in Hs0. inversion Hs0. }
+    assert (Hne : b_objs_read s <> []) by (rewrite Hobjs; discriminate).
+    destruct (save_emits_bundle_inv E s tr _ _ (latest_inv_descr_inv _ _ L) Hne Hs0)
+      as (nm & d & pre1 & seq1 & u1 & _ & _ & D & N1 & Hin & Hn & Hreg & _).
+    assert (Hd' : pre1 ++ [DEvent u1 (de_uid d) seq1 (merge_readings (b_read_cache s)) (filled_keys d)] =
+                  pre ++ DEvent u de seq data fl :: post) by (rewrite <- D; exact Hd).
+    apply tail_event_split in Hd'; [|exact N1 | reflexivity]. destruct Hd' as (-> & Hev & ->).
+    inversion Hev; subst. exists d. split; [exact Hin|]. split; [reflexivity|]. right.
+    pose proof (linv_exec tr E OSave Hu (clear_buffers s) L) as L1. cbn [exec] in L1. rewrite He in L1. cbn [fst] in L1.
+    destruct L1 as [L1 _]. destruct (L1 _ _ Hreg) as (_ & _ & _ & L4).
+    rewrite D, app_assoc, latest_snoc_other in L4 by reflexivity. exact L4.
+  - (* a monitor fires *)
+    pose proof (monitor_events_latest E s tr o r0 s' docs r Hst Hs) as M.
+    assert (Hx : In (DEvent u de seq data fl) docs) by (rewrite Hd; apply in_or_app; right; left; reflexivity).
+    destruct (M _ Hx) as (u' & seq' & data' & fl' & d & Heq & Hin & Hl). inversion Heq; subst.
+    assert (Hpre : forallb not_descr pre = true).
+    { apply forallb_forall. intros x Hxin. assert (Hxd : In x (pre ++ DEvent u' (de_uid d) seq' data' fl' :: post)) by (apply in_or_app; left; exact Hxin).
+      destruct (M _ Hxd) as (? & ? & ? & ? & ? & -> & _). reflexivity. }
+    exists d. split; [apply in_or_app; left; exact Hin|]. split; [reflexivity|]. right.
+    rewrite latest_app_nodescr by exact Hpre. exact Hl.
+  - (* an interruption is recorded *)
+    apply step_inv in Hs. destruct Hs as (r0 & He & -> & _). cbn [exec] in He.
+    apply record_interruption_docs in He. cbn in He.
+    destruct He as [He|(u' & seq' & data' & fl' & d & Hi & He)].
+    + rewrite He in Hd. destruct pre; discriminate Hd.
+    + rewrite He in Hd. destruct pre as [|x pre]; cbn in Hd; [|inversion Hd as [[H1 H2]]; destruct pre; discriminate H2].
+      inversion Hd; subst. destruct (I d Hi) as [Hn Hin]. cbn in Hin. rewrite app_nil_r in *.
+      exists d. split; [exact Hin|]. split; [reflexivity|]. left. exact Hn.
+Qed.
+
+Lemma app_split {A} (a b pre : list A) x post :
+  a ++ b = pre ++ x :: post ->
+  (exists post', a = pre ++ x :: post' /\ post = post' ++ b) \/
+  (exists pre', pre = a ++ pre' /\ b = pre' ++ x :: post).
+Proof.
+  revert pre. induction a as [|y a IH]; intros pre H.
+  - right. exists pre. auto.
+  - destruct pre as [|z pre]; cbn in H.
+    + inversion H; subst. left. exists a. auto.
+    + inversion H; subst. destruct (IH pre H2) as [(post' & -> & ->)|(pre' & -> & ->)].
+      * left. exists post'. auto.
+      * right. exists pre'. auto.
+Qed.
+
+Lemma run_cons_final E s o h : final E s (o :: h) = final E (fst (fst (step E s o))) h.
+Proof. reflexivity. Qed.
+Lemma run_cons_trace E s o h : trace E s (o :: h) = snd (fst (step E s o)) ++ trace E (fst (fst (step E s o))) h.
+Proof. reflexivity. Qed.
+
+Lemma finding_snoc E : forall h s tr o,
+  finding_C16_a E s tr (h ++ [o]) = finding_C16_a E s tr h || stale_fire (tr ++ trace E s h) (final E s h) o.
+Proof.
+  induction h as [|a h IH]; intros s tr o.
+  - cbn [app finding_C16_a]. rewrite orb_false_r. unfold trace, final. cbn. rewrite app_nil_r. reflexivity.
+  - cbn [app finding_C16_a]. rewrite IH, run_cons_final, run_cons_trace, orb_assoc, app_assoc. reflexivity.
+Qed.
+
+Theorem events_follow_descriptors_main E st ri h :
+  no_name0 h -> finding_C16_a E (init st ri) [] h = false ->
+  events_follow_descriptors (trace E (init st ri) h).
+Proof.
+  intros Hn Hf.
+  assert (G : latest_inv (trace E (init st ri) h) (clear_buffers (final E (init st ri) h)) /\
+              int_inv (trace E (init st ri) h) (clear_buffers (final E (init st ri) h)) /\
+              events_follow_descriptors (trace E (init st ri) h)).
+  { induction h as [|o h IH] using rev_ind.
+    - split; [split; [intros nm d H; discriminate | intros nm H; discriminate]|].
+      split; [intros d H; discriminate|]. intros pre u de seq data fl post H. destruct pre; discriminate H.
+    - unfold no_name0 in Hn. rewrite forallb_app in Hn. apply andb_true_iff in Hn. destruct Hn as [Hh Ho].
+      cbn in Ho. rewrite andb_true_r in Ho. apply negb_true_iff in Ho.
+      rewrite finding_snoc in Hf. apply orb_false_iff in Hf. destruct Hf as [Hfh Hst]. cbn [app] in Hst.
+      destruct (IH Hh Hfh) as (L & I & Ev). clear IH.
+      rewrite final_snoc, trace_snoc.
+      set (s := final E (init st ri) h) in *. set (tr := trace E (init st ri) h) in *.
+      destruct (step E s o) as [[s' docs] r] eqn:Hs. cbn [fst snd].
+      pose proof Hs as Hs1. apply step_inv in Hs1. destruct Hs1 as (r0 & He & Hdocs & _).
+      split; [|split].
+      + pose proof (linv_exec tr E o Ho (clear_buffers s) L) as L1. rewrite He in L1. cbn [fst] in L1.
+        destruct L1 as [L1 J1]. split; [|exact J1].
+        intros nm d Hg. destruct (L1 nm d Hg) as (A1 & A2 & A3 & A4). rewrite <- Hdocs in A3, A4.
+        cbn. rewrite app_nil_r. auto.
+      + pose proof (iinv_exec tr E o (clear_buffers s) I) as I1. rewrite He in I1. cbn [fst] in I1.
+        intros d Hd. destruct (I1 d Hd) as [B1 B2]. rewrite <- Hdocs in B2. cbn. rewrite app_nil_r. auto.
+      + intros pre u de seq data fl post Hd. apply app_split in Hd.
+        destruct Hd as [(post' & Hd & _)|(pre' & -> & Hd)].
+        * exact (Ev _ _ _ _ _ _ _ Hd).
+        * exact (step_events E s tr o s' docs r L I Ho Hst Hs _ _ _ _ _ _ _ Hd). }
+  apply G.
+Qed.
+
+(* ---- the full statement (without the finding hypothesis) fails on the unchanged code *)
+Lemma events_follow_reflect rest : forall pre,
+  events_follow_descriptors (pre ++ rest) -> events_follow_descriptors_b pre rest = true.
+Proof.
+  induction rest as [|x rest IH]; intros pre H; [reflexivity|].
+  cbn [events_follow_descriptors_b]. apply andb_true_iff. split.
+  - destruct x; try reflexivity.
+    destruct (H pre u de seq data filled rest eq_refl) as (d & Hin & Hu & Hl).
+    apply existsb_exists. exists (DDescr d). split; [exact Hin|].
+    rewrite Hu. apply andb_true_iff. split; [destruct de; cbn; apply Nat.eqb_refl|].
+    destruct Hl as [Hl|Hl]; [rewrite Hl; reflexivity|].
+    rewrite Hl. cbn. rewrite descr_beq_refl. apply orb_true_r.
+  - apply IH. rewrite <- app_assoc. exact H.
+Qed.
+
+Lemma c16a_refuted_main :
+  exists E st ri h, no_name0 h /\ finding_C16_a E (init st ri) [] h = true /\
+                    ~ events_follow_descriptors (trace E (init st ri) h).
+Proof.
+  exists (env_of c16a_devs), false, false, c16a_hist.
+  split; [reflexivity|]. split; [vm_compute; reflexivity|].
+  intros H. apply (events_follow_reflect _ []) in H.
+  assert (F : events_follow_descriptors_b [] (trace (env_of c16a_devs) (init false false) c16a_hist) = false)
+    by (vm_compute; reflexivity).
+  rewrite F in H. discriminate H.
+Qed.
+
+(* events of a save reference the latest descriptor of the bundle's stream (corollary of the main theorem's step) *)
